@@ -448,8 +448,8 @@ impl Iterator for QueryState<'_> {
 
             if let Err(err) = machine
                 .machine_st
-                .heap
-                .append(&machine.machine_st.ball.stub)
+                .ball
+                .copy_and_align_to(&mut machine.machine_st.heap)
             {
                 let resource_error_offset = err.resource_error_offset(&mut machine.machine_st.heap);
                 return Some(Err(Term::from_heapcell(
